@@ -361,6 +361,7 @@ void make_inputs(const ProgMeta &meta, uint64_t dataseed, int nreq, RunData &d) 
   d.m = m;
   for (int i = 0; i < ORC_N_VARIABLES; i++) {
     d.arr[i].clear();
+    d.len[i] = 0;
     d.off[i] = 0;
     d.stride[i] = 0;
     d.params[i] = 0;
@@ -379,7 +380,8 @@ void make_inputs(const ProgMeta &meta, uint64_t dataseed, int nreq, RunData &d) 
       d.arr[i].assign((size_t)stride * m + 64 + 128, 0);
       uintptr_t base = (uintptr_t)d.arr[i].data();
       d.off[i] = (int)((64 - (base % 64)) % 64) + mis;
-      for (size_t k = 0; k < (size_t)stride * m + 64; k++) d.arr[i][d.off[i] + k] = (uint8_t)r.next();
+      d.len[i] = (size_t)stride * m + 64;
+      for (size_t k = 0; k < d.len[i]; k++) d.arr[i][d.off[i] + k] = (uint8_t)r.next();
     } else if (v.vartype == ORC_VAR_TYPE_PARAM) {
       uint64_t val = r.next();
       if (v.shift_max > 0) val %= (uint64_t)v.shift_max;
@@ -401,17 +403,28 @@ void make_inputs(const ProgMeta &meta, uint64_t dataseed, int nreq, RunData &d) 
       }
     }
   }
+  d.exstyle = r.chance(1, 2) ? 1 : 0;
+  d.exgarbage = r.next();
 }
 
 void run_with(OrcProgram *prog, OrcCode *code, const ProgMeta &meta, RunMode mode, RunData &d) {
   OrcExecutor exs;
   OrcExecutor *ex = &exs;
-  memset(ex, 0, sizeof *ex);
-  if (prog) {
-    orc_executor_set_program(ex, prog);
+  if (d.exstyle == 1) {
+    // uninitialised executor, as in every orcc-generated wrapper (`OrcExecutor _ex, *ex = &_ex;`)
+    uint64_t g = d.exgarbage;
+    unsigned char *raw = (unsigned char *)ex;
+    for (size_t i = 0; i < sizeof *ex; i += 8) { uint64_t v = splitmix64(g); memcpy(raw + i, &v, std::min<size_t>(8, sizeof *ex - i)); }
+    if (prog) ex->program = prog;
+    else { ex->program = nullptr; ex->arrays[ORC_VAR_A2] = code; }
   } else {
-    ex->program = nullptr;
-    ex->arrays[ORC_VAR_A2] = code;
+    memset(ex, 0, sizeof *ex);
+    if (prog) {
+      orc_executor_set_program(ex, prog);
+    } else {
+      ex->program = nullptr;
+      ex->arrays[ORC_VAR_A2] = code;
+    }
   }
   orc_executor_set_n(ex, d.n);
   if (meta.is_2d) orc_executor_set_m(ex, d.m);
@@ -455,6 +468,13 @@ std::string compare_outputs(const ProgMeta &meta, const RunData &a, const RunDat
           return strf("dest var %d row %d byte %d: %02x vs %02x (n=%d m=%d)", i, row, k, pa[k], pb[k], a.n, a.m);
         }
       }
+      // nothing outside the n elements of each row may change (row padding and the slack behind the last row)
+      if (a.len[i] == b.len[i] && memcmp(a.ptr(i), b.ptr(i), a.len[i])) {
+        size_t k = 0;
+        while (k < a.len[i] && a.ptr(i)[k] == b.ptr(i)[k]) k++;
+        return strf("dest var %d: byte %zu beyond the %d elements of its row differs: %02x vs %02x (stride %d, n=%d m=%d)", i, k, a.n, a.ptr(i)[k],
+                    b.ptr(i)[k], a.stride[i], a.n, a.m);
+      }
     } else if (v.vartype == ORC_VAR_TYPE_ACCUMULATOR) {
       int k = i - ORC_VAR_A1;
       unsigned va = a.acc[k], vb = b.acc[k];
@@ -471,7 +491,7 @@ uint64_t hash_outputs(const ProgMeta &meta, const RunData &d) {
     const VarMeta &v = meta.vars[i];
     if (v.size == 0) continue;
     if (v.vartype == ORC_VAR_TYPE_DEST) {
-      for (int row = 0; row < d.m; row++) f.add(d.ptr(i) + (size_t)row * d.stride[i], d.n * v.size);
+      f.add(d.ptr(i), d.len[i]);
     } else if (v.vartype == ORC_VAR_TYPE_ACCUMULATOR) {
       unsigned va = d.acc[i - ORC_VAR_A1];
       if (v.size == 2) va &= 0xffff;
